@@ -89,6 +89,35 @@ def run(kind, train, dt, delay, interp, cob, sob, inplace, selectors):
     return None
 
 
+def tolerance_case(kind, train, dt, delay, tol):
+    """the synapse's own interpolation tolerance decides what counts as on the grid: a delay within `tol` of k*dt reads
+    the sample k steps back exactly (whatever the interpolation mode), also when tol is far from select's default"""
+    kw = dict(delay=delay, interp_tol=tol, current_overbound=None, spike_overbound=None)
+    if kind == "delta":
+        syn = DeltaCurrent((2,), dt, spike_charge=Q, interp_mode="previous", **kw)
+    elif kind == "deltaplus":
+        syn = DeltaPlusCurrent((2,), dt, spike_charge=Q, interp_mode="previous", **kw)
+    elif kind == "single":
+        syn = SingleExponentialCurrent((2,), dt, spike_charge=Q, time_constant=4.0, spike_interp_mode="previous", **kw)
+    else:
+        syn = DoubleExponentialCurrent((2,), dt, spike_charge=Q, tc_decay=6.0, tc_rise=2.0, spike_interp_mode="previous", **kw)
+    inp = dict(kind=kind, train=list(train), dt=dt, delay=delay, interp_tol=tol)
+    kmax = int(delay / dt)
+    for n, s_ in enumerate(train):
+        x = torch.tensor([[float(s_), 0.0]])
+        syn(x, torch.zeros(1, 2)) if kind == "deltaplus" else syn(x)
+        for k in range(kmax + 1):
+            for off in (0.8 * tol, -0.8 * tol):
+                d = k * dt + off
+                if d < 0 or d > delay:
+                    continue
+                spk = syn.spike_at(torch.full((1, 2, 1), float(d))).reshape(-1)[0].item()
+                exp = float(train[n - k]) if n - k >= 0 else 0.0
+                if abs(float(spk) - exp) > 1e-6:
+                    return {"what": f"C04/{kind}/spike_at_within_tolerance_of_grid", "input": dict(inp, step=n, selector=d, k=k), "expected": exp, "actual": float(spk)}
+    return None
+
+
 def sweep(tier="quick", seed=0, unsupported=()):
     failures, cases = [], 0
     rnd = random.Random(seed)
@@ -105,6 +134,13 @@ def sweep(tier="quick", seed=0, unsupported=()):
                     f = run(kind, train, dt, delay, interp, cob, sob, inplace, sels)
                     if f is not None and not any(x["what"] == f["what"] for x in failures):
                         failures.append(f)
+    for kind in ("delta", "deltaplus", "single", "double"):
+        for train in trains[:6]:
+            for dt, delay, tol in ((1.0, 3.0, 0.25), (0.5, 1.5, 0.1)):
+                cases += 1
+                f = tolerance_case(kind, train, dt, delay, tol)
+                if f is not None and not any(x["what"] == f["what"] for x in failures):
+                    failures.append(f)
     return {"standins": [{"function": "4 synapse classes: current = impulse-response sum, spike record, current_at/spike_at on/off grid, at and beyond the supported delay, overbound value/None, inplace on/off", "domain": f"boolean spike trains of length {L} ({len(trains)} of them) x (dt,delay) in {{(1,0),(1,2.5),(0.5,1)}} x 3 interpolation/overbound settings", "cases": cases, "proved": False, "label": "bounded"}], "failures": failures}
 
 
@@ -117,6 +153,9 @@ def replay(contract, label, model, note=""):
 
 def replay_native(rp):
     i = rp["input"]
+    if "interp_tol" in i:
+        f = tolerance_case(i["kind"], i["train"], i["dt"], i["delay"], i["interp_tol"])
+        return {"reproduced": f is not None, "failure": f}
     sel = [i["selector"]] if "selector" in i else [0.0]
     f = run(i["kind"], i["train"], i["dt"], i["delay"], i["interp"], i["current_overbound"], i["spike_overbound"], i["inplace"], sel)
     return {"reproduced": f is not None, "failure": f}
